@@ -125,7 +125,14 @@ func cmdVerify(repo, root string, args []string) int {
 		for _, g := range groups {
 			s := g.Status()
 			if s != "unsat" || *verbose {
-				fmt.Printf("   %-8s %s  -- %s\n", s, g.Name, g.Text)
+				var mx int64
+				sv := ""
+				for _, o := range g.Instances {
+					if o.TimeMS > mx {
+						mx, sv = o.TimeMS, o.Solver
+					}
+				}
+				fmt.Printf("   %-8s %s [%s %dms] -- %s\n", s, g.Name, sv, mx, g.Text)
 				if s != "unsat" {
 					bad++
 					for _, o := range g.Instances {
@@ -180,7 +187,12 @@ func cmdVerify(repo, root string, args []string) int {
 				bad++
 			}
 			if o.Result != "unsat" || *verbose {
-				fmt.Printf("   %-8s %s -- %s\n", o.Result, o.Name, o.Text)
+				fmt.Printf("   %-8s %s -- %s [%s %dms]\n", o.Result, o.Name, o.Text, o.Solver, o.TimeMS)
+			}
+			if *dump != "" && strings.Contains(o.Name, *dump) {
+				fn := fmt.Sprintf("/var/tmp/dump-%s.smt2", sanitize(o.Name))
+				os.WriteFile(fn, []byte(solverHeader("z3", false)+buildQuery(o, nil)), 0o644)
+				fmt.Println("   dumped", fn)
 			}
 		}
 		fmt.Printf("lemma %-50s obligations=%d\n", shortKey(rep.Key), len(rep.Obls))
